@@ -26,7 +26,7 @@ theorem C16_axis (u : Ucd) (f : Font) (c : Cfg) (text : List (Nat × Nat)) (out 
 
 example : ∃ u f c text out, shape u f c text = .ok out ∧ out ≠ [] :=
   ⟨⟨fun _ => 7, fun _ => 0, fun _ => false, fun _ => false, fun _ => 0, fun _ => none, fun _ => none, fun _ => false⟩,
-   ⟨[], 1000, none, none, 800, -200, none⟩, ⟨.ttb, none, 0, 0, 0⟩, [(0x41, 0)], _, rfl, by decide⟩
+   ⟨[], 1000, none, none, 800, -200, none, none, fun _ => 0⟩, ⟨.ttb, none, 0, 0, 0⟩, [(0x41, 0)], _, rfl, by decide⟩
 
 /-- C16_gid16: when the parsed cmap can only return 16-bit glyph ids (ttf-parser's `GlyphId(u16)`), every
     glyph id in the result of the model pipeline — cmap glyphs, .notdef, the space glyph used for
@@ -39,7 +39,7 @@ theorem C16_gid16 (u : Ucd) (f : Font) (c : Cfg) (text : List (Nat × Nat)) (out
   · subst h; exact shapeCore_gid16 u f c text hf
 
 example : ∃ f : Font, f.subs ≠ [] ∧ ∀ s ∈ f.subs, ∀ cp g, s.map cp = some g → g < 65536 :=
-  ⟨⟨[⟨3, 1, fun c => if c == 0x41 then some 1 else none⟩], 1000, none, none, 800, -200, none⟩, by simp,
+  ⟨⟨[⟨3, 1, fun c => if c == 0x41 then some 1 else none⟩], 1000, none, none, 800, -200, none, none, fun _ => 0⟩, by simp,
    by intro s hs cp g h; simp at hs; subst hs; simp at h; omega⟩
 
 /-- C16_cmap_pref: the chosen cmap subtable is the first subtable (in table order) carrying the first
@@ -101,7 +101,7 @@ example : ∃ (u : Ucd) (f : Font) (c : Cfg) (text : List (Nat × Nat)),
     (∀ t ∈ text, u.isDI t.1 = false) ∧ (∀ t ∈ text, (nominal f (rotCp u f c t.1)).isSome = true) ∧ text ≠ [] :=
   ⟨⟨fun _ => 9, fun _ => 0, fun _ => false, fun _ => false, fun _ => 0, fun _ => none, fun _ => none, fun _ => false⟩,
    ⟨[⟨3, 1, fun c => if c == 0x41 then some 1 else if c == 0x42 then some 2 else none⟩], 1000,
-      some (fun _ => some 500), none, 800, -200, none⟩,
+      some (fun _ => some 500), none, 800, -200, none, none, fun _ => 0⟩,
    ⟨.rtl, some .ltr, 0, 0, 0⟩, [(0x41, 0), (0x42, 1)],
    by intro t _; exact ⟨rfl, rfl⟩,
    by
@@ -114,5 +114,45 @@ example : ∃ (u : Ucd) (f : Font) (c : Cfg) (text : List (Nat × Nat)),
      simp only [List.mem_cons, List.not_mem_nil, or_false] at ht
      rcases ht with rfl | rfl <;> decide,
    by simp⟩
+
+/-- C16_v_origin: the vertical origin the offsets of C16_default refer to.
+    VORG wins.  Without VORG, for an outline glyph with vertical extent `[yMin, yMax]`:
+    with `vmtx` the origin is the top of the box plus the top side bearing; without it the box is centred in the
+    line `ascender - descender`, and an odd remainder is rounded DOWN (HarfBuzz's `diff >> 1`), i.e.
+    `2·(origin − yMax) ≤ (ascender − descender) − (yMax − yMin) < 2·(origin − yMax) + 2`.
+    Without outlines the origin is the ascender. -/
+theorem C16_v_origin (f : Font) (g : Nat) :
+    (∀ y, f.vorg = some y → vOrigin f g = y g) ∧
+    (f.vorg = none → f.glyf = none → vOrigin f g = f.ascender) ∧
+    (∀ bb ymin ymax, f.vorg = none → f.glyf = some bb → bb g = some (ymin, ymax) →
+      (f.vmtx.isSome = true → vOrigin f g = ymax + f.vsb g) ∧
+      (f.vmtx.isSome = false →
+        2 * (vOrigin f g - ymax) ≤ (f.ascender - f.descender) - (ymax - ymin) ∧
+        (f.ascender - f.descender) - (ymax - ymin) < 2 * (vOrigin f g - ymax) + 2)) ∧
+    (∀ bb, f.vorg = none → f.glyf = some bb → bb g = none →
+      (f.vmtx.isSome = true → vOrigin f g = f.vsb g) ∧
+      (f.vmtx.isSome = false → 2 * vOrigin f g ≤ f.ascender - f.descender ∧
+        f.ascender - f.descender < 2 * vOrigin f g + 2)) := by
+  refine ⟨?_, ?_, ?_, ?_⟩
+  · intro y h; simp [vOrigin, h]
+  · intro h1 h2; simp [vOrigin, h1, glyphExtentsY, h2]
+  · intro bb ymin ymax h1 h2 h3
+    refine ⟨?_, ?_⟩
+    · intro hv; simp [vOrigin, h1, glyphExtentsY, h2, h3, hv]
+    · intro hv
+      have : vOrigin f g = ymax + ((f.ascender - f.descender) + (ymin - ymax)) / 2 := by
+        simp [vOrigin, h1, glyphExtentsY, h2, h3, hv]
+      rw [this]; omega
+  · intro bb h1 h2 h3
+    refine ⟨?_, ?_⟩
+    · intro hv; simp [vOrigin, h1, glyphExtentsY, h2, h3, hv]
+    · intro hv
+      have : vOrigin f g = 0 + ((f.ascender - f.descender) + 0) / 2 := by
+        simp [vOrigin, h1, glyphExtentsY, h2, h3, hv]
+      rw [this]; omega
+
+/-- non-vacuity and the rounding direction on a concrete glyph: box taller than the line by an odd amount
+    (ascender 800, descender −200, yMin −301, yMax 800: diff = −101, origin = 800 − 51 = 749, not 750) -/
+example : vOrigin ⟨[], 1000, none, none, 800, -200, none, some (fun _ => some (-301, 800)), fun _ => 0⟩ 1 = 749 := by decide
 
 end RbModel.Pipeline
